@@ -20,7 +20,8 @@ PROPERTY THEOREMS (audited by ./check): C11_write_error_surfaces, C11_error_surf
 C11_error_surfaces_stream, C11_call_error_surfaces (from any state, any validator, call by call), C11_consts (obligation on
 the regenerated profile version), C11_prefix_never_valid, C11_prefix_never_valid_stream, C11_stale_header_witness (the
 finding F13 / KF-C11-1, repaired in /repo f65e050; the theorems speak about both variants through `StreamCfg`),
-C11_fault_is_crash_prefix, C11_fault_is_crash_prefix_stream, C11_call_fault_is_crash_prefix, C11_crash_prefix_never_valid,
+C11_fault_is_crash_prefix, C11_fault_is_crash_prefix_stream, C11_call_fault_is_crash_prefix,
+C11_validated_call_fault_is_crash_prefix, C11_crash_prefix_never_valid,
 and — destinations that return a short count WITHOUT error, outside the property's assumption — C11_short_write_model_refines,
 C11_short_write_buffered_safe, C11_short_write_witness (all at the end of the file).
 The model's encoder has no panic outcome (its result type is writer state × success); a panic of the implementation
@@ -274,6 +275,36 @@ theorem C11_call_fault_is_crash_prefix (k j : Nat) (c : StreamCfg) (o : Opts) (h
       (writeMessage_sim k j o h s m hk) (writeMessage_ext _ o h s m) (writeMessage_ext _ o h s m)
   · exact crash_of_sim (dst := fun r : Stream × Bool => r.1.e.w.d) (ok := fun r => r.2) s.e.w.d hk
       (sequenceCompleted_sim k j c o h s hk) (sequenceCompleted_ext _ c o h s) (sequenceCompleted_ext _ c o h s)
+
+/-- … and for the entry points AS THE API HAS THEM, validators in front (any message validator; these are the functions
+the driver runs against the real `Encode` / `WriteMessage` / `SequenceCompleted`): `CrashPrefix k j d₀ dF dH okF same` says
+there is an operation sequence `ops` with `dH = d₀.run ops` (healthy run), `dF = d₀.run (crashOps … ops)` (faulted run), the
+faulted call does not report `ok` when `ops` reaches operation `k`, and `same` when it does not. -/
+theorem C11_validated_call_fault_is_crash_prefix {σ : Type} (V : MsgValidator σ) (k j : Nat) (c : StreamCfg) (o : Opts)
+    (h : Fit.Wire.Hdr) :
+    (∀ (e : Enc) (f : FitIn), e.w.d.log.length ≤ k →
+      CrashPrefix k j e.w.d (encodeV V (single k j) o e f).1.w.d (encodeV V noFault o e f).1.w.d
+        (decide ((encodeV V (single k j) o e f).2 = .ok)) (encodeV V (single k j) o e f = encodeV V noFault o e f)) ∧
+    (∀ (s : Stream) (vs : σ) (m : WMsg), s.e.w.d.log.length ≤ k →
+      CrashPrefix k j s.e.w.d (s.writeMessageV V (single k j) o h vs m).1.e.w.d (s.writeMessageV V noFault o h vs m).1.e.w.d
+        (decide ((s.writeMessageV V (single k j) o h vs m).2.2 = .ok))
+        (s.writeMessageV V (single k j) o h vs m = s.writeMessageV V noFault o h vs m)) ∧
+    (∀ (s : Stream) (vs : σ), s.e.w.d.log.length ≤ k →
+      CrashPrefix k j s.e.w.d (s.sequenceCompletedV V (single k j) c o h vs).1.e.w.d (s.sequenceCompletedV V noFault c o h vs).1.e.w.d
+        (decide ((s.sequenceCompletedV V (single k j) c o h vs).2.2 = .ok))
+        ((s.sequenceCompletedV V (single k j) c o h vs).1 = (s.sequenceCompletedV V noFault c o h vs).1 ∧
+         (s.sequenceCompletedV V (single k j) c o h vs).2.2 = (s.sequenceCompletedV V noFault c o h vs).2.2)) := by
+  refine ⟨fun e f hk => encodeV_crash V k j o e f hk, fun s vs m hk => ?_, fun s vs hk => ?_⟩
+  · exact crash_of_sim (dst := fun r : Stream × σ × Res => r.1.e.w.d) (ok := fun r => decide (r.2.2 = .ok)) s.e.w.d hk
+      (writeMessageV_sim V k j o h s vs m hk) (writeMessageV_ext V _ o h s vs m) (writeMessageV_ext V _ o h s vs m)
+  · obtain ⟨ops, a1, a2, a3, a4⟩ := crash_of_sim (dst := fun r : Stream × Bool => r.1.e.w.d) (ok := fun r => r.2) s.e.w.d hk
+      (sequenceCompleted_sim k j c o h s hk) (sequenceCompleted_ext _ c o h s) (sequenceCompleted_ext _ c o h s)
+    obtain ⟨f1, f2⟩ := sequenceCompletedV_eq V (single k j) c o h s vs
+    obtain ⟨g1, g2⟩ := sequenceCompletedV_eq V noFault c o h s vs
+    refine ⟨ops, by rw [g1]; exact a1, by rw [f1]; exact a2, fun hlt => ?_, fun hle => ?_⟩
+    · have := a3 hlt
+      rw [f2, this]; rfl
+    · rw [f1, g1, f2, g2, a4 hle]; exact ⟨rfl, rfl⟩
 
 /-- CRASH STATES OF THE HEALTHY RUN ARE NEVER VALID FILES (the two halves together): for default headers, any kind and
 buffer size, on a destination that is empty or holds an accepted stream and has seen no operation yet: take the operation
